@@ -296,7 +296,7 @@ func c15NewNode(dir string, port int, maxCount int64) (*cluster.ClusterNode, err
 		RpcTimeout:         5,
 		RpcRetries:         1,
 		Servers:            []string{"localhost:" + strconv.Itoa(port)},
-		ShardManager:       cluster.ShardManagerConfig{RootDir: dir, ShardTimeout: 60, MaxCacheSize: -1},
+		ShardManager:       cluster.ShardManagerConfig{RootDir: filepath.Join(dir, "shard-root"), ShardTimeout: 60, MaxCacheSize: -1}, // not the node root: the two settings are independent
 		MaxShardSize:       1 << 30,
 		MaxShardPointCount: maxCount,
 		MaxSearchLimit:     75,
